@@ -440,7 +440,7 @@ class World(object):
         except Exception:
             pass
 
-    def _used(self, tag_hint, with_headers):
+    def _used(self, with_headers):
         rec = self.last_use
         if rec is None or "error" in rec:
             return OEXC
@@ -492,7 +492,7 @@ class World(object):
             return OREC
         except Exception:
             return OEXC
-        return self._used(None, True)
+        return self._used(True)
 
     def open(self, node):
         import suds.transport
@@ -509,7 +509,7 @@ class World(object):
             return OREC
         except Exception:
             return OEXC
-        return self._used(None, False)
+        return self._used(False)
 
 
 def code(o):
